@@ -33,6 +33,11 @@ func TestMakeExemplars(t *testing.T) {
 		{"F24-local-function-named-like-static", Func("sqr", []string{"a", "b"}, Bin("+", Bin("*", Var("a"), Var("b")), x),
 			Call(Var("sqr"), Int(2), Int(3))), []*Expr{Int(1)}},
 		{"F24-local-closure-named-like-static", Func("abs", []string{"a"}, Bin("+", Var("a"), x), Call(Var("abs"), Int(-2))), []*Expr{Int(0)}},
+		// shadowing across function bodies: the inner closure sees the nearest binding
+		{"shadow-rebinding-let-seen-by-inner-closure", Let("f", Lam([]string{"a"}, Let("x", Bin("*", x, Int(10)), Lam([]string{"z"}, Bin("+", Bin("+", x, Var("z")), Var("a"))))),
+			Call(Call(Var("f"), Int(1)), Int(2))), []*Expr{Int(3)}},
+		{"shadow-direct-use-equals-nested-use", Func("f", []string{"a"}, Let("t", Bin("+", x, Var("a")), Let("x", Bin("*", Var("t"), Int(100)),
+			Bin("-", x, Call(Lam([]string{"z"}, Bin("+", x, Var("z"))), Int(0))))), Call(Var("f"), Int(1))), []*Expr{Int(3)}},
 		{"F8-cut-on-empty-string", MCall(If(Bin("=", x, Int(0)), Str(""), Str("")), "cut", Int(0), Int(1)), []*Expr{Int(0)}},
 		{"F5-modulo-by-zero-is-catchable", Try(Bin("%", Int(1), x), Int(7)), []*Expr{Int(0)}},
 		{"F5-negative-shift-is-catchable", Try(Bin("<<", Int(1), x), Int(7)), []*Expr{Int(-1)}},
